@@ -9,7 +9,7 @@ import traceback
 
 ROOT = os.path.dirname(os.path.dirname(os.path.abspath(__file__)))
 sys.path.insert(0, ROOT)
-sys.path.insert(0, "/repo")
+sys.path.insert(0, os.environ.get("VERIF_REPO", "/repo"))   # the tree under test (default: /repo's working tree)
 os.environ.setdefault("PYTHONHASHSEED", "0")
 
 
